@@ -16,8 +16,8 @@ func (p *prop) Generate(rng *core.Rand, tier string, emit func(string)) {
 	if p.corpus == nil {
 		p.corpus = loadCorpus()
 	}
-	nSort, nSite, nMut, nGram, nRaw, nLeak := 20000, 1800, 3000, 1600, 1000, 200
-	nRec, nImp := 3000, 1800
+	nSort, nSite, nMut, nGram, nRaw, nLeak := 20000, 1800, 2600, 1500, 1000, 200
+	nRec, nImp := 2600, 1600
 	switch tier {
 	case "thorough":
 		nSort, nSite, nMut, nGram, nRaw, nLeak = 300000, 20000, 55000, 25000, 15000, 2000
@@ -69,6 +69,9 @@ func (p *prop) Generate(rng *core.Rand, tier string, emit func(string)) {
 	// ---- bind values → servers (listen / listen_protocols) through the whole adapter vs model
 	for i := 0; i < nSite/2; i++ {
 		emit(genBindCase(rgl))
+	}
+	for i := 0; i < nSite/5; i++ {
+		emit(genDbindCase(rgl))
 	}
 	// ---- `servers { name }` renames: determinism over many adaptations, no server lost
 	for i := 0; i < nSite/6; i++ {
